@@ -5,9 +5,14 @@
     haplotypes the real PedigreeDPTable reports cost 0, and on every
     read-connected component its two super reads are the true haplotypes up to
     exchanging them as a whole; no allele is flagged as a tie.
-The pipeline stages around the solver are covered by their own properties
-(C06 allele detection, C07 selection, C03 components, C04/C09 writer) - see
-DESIGN.md 4 C02 for what is outside this claim."""
+(b) ef_detect (PySym): the input side of the lemma - ReadSetReader (with a
+    reference, and without one for SNVs) never records, for a read that is an
+    exact copy of a haplotype, the allele that haplotype does not carry; also
+    for variants the read covers only in part (C06 is silent about those).
+    Harness, models and replay are those of checks/c06.py (sub-check `one`).
+The remaining pipeline stages around the solver are covered by their own
+properties (C07 selection, C03 components, C04/C09 writer) - see DESIGN.md 4
+C02 for what is outside this claim."""
 import itertools
 
 import z3
@@ -102,4 +107,38 @@ class ErrorFree(DPCheck):
         return None
 
 
-SUBCHECKS = {c.name: c for c in [ErrorFree()]}
+from checks import c06 as _c06
+
+
+class ErrorFreeDetection(_c06.One):
+    """C06's single-variant harness with the stronger claim C02 needs: whatever part of the variant the read covers, the
+    recorded allele is the carried one or none."""
+
+    name = "ef_detect"
+    partial_claim = True
+    required_cover = [
+        "fully covered snv carried=alt",
+        "fully covered del carried=ref",
+        "partially covered del carried=ref",
+        "partially covered del carried=alt",
+        "partially covered ins carried=alt",
+        "partially covered mnp carried=alt",
+        "partially covered mnp carried=ref",
+        "allele recorded for a partially covered variant",
+    ]
+
+    def shapes(self, tier):
+        out = []
+        for sh in _c06.One.shapes(self, tier):
+            if sh["deco"] != "plain":
+                continue
+            # C02 claims indels/MNPs with a reference only; overhang 0 is a `genotype`-only setting with known C06 findings
+            if sh["mode"] == "realign" and sh["ov"] >= 1 or sh["mode"] == "cigar" and sh["kind"] == "snv":
+                out.append(sh)
+        return out
+
+    def bounds(self, tier):
+        return "as C06 `one` without decorations: " + _c06.One.bounds(self, tier) + "; restricted to re-alignment with overhang >= 1 (all variant kinds) and CIGAR-based detection of SNVs"
+
+
+SUBCHECKS = {c.name: c for c in [ErrorFree(), ErrorFreeDetection()]}
